@@ -40,6 +40,7 @@ type G struct {
 	wake  chan struct{}
 	wg    *sync.WaitGroup // when gWgWait
 	prio  int             // PCT priority
+	idleFor time.Duration // AwaitQuiescence: required idle time
 	goid  uint64
 }
 
@@ -540,8 +541,9 @@ func AwaitQuiescence(idle time.Duration) bool {
 		return true
 	}
 	s.mu.Lock()
-	if idle > 0 {
-		s.cfg.IdleBound = idle
+	g.idleFor = idle
+	if idle <= 0 || idle > s.cfg.IdleBound {
+		g.idleFor = s.cfg.IdleBound
 	}
 	s.mu.Unlock()
 	s.park(g, "quiesce", gIdleWait)
@@ -690,21 +692,20 @@ func (s *Sim) Run(main func()) {
 		if len(cands) == 0 {
 			// nothing runnable: jump the clock to the next event
 			idle := time.Since(s.lastAct)
+			var iw *G
+			for _, g := range s.gs {
+				if g.state == gIdleWait && (iw == nil || g.idleFor < iw.idleFor) {
+					iw = g
+				}
+			}
+			if iw != nil && idle >= iw.idleFor {
+				// quiescent for as long as the waiter asked for
+				iw.state = gParked
+				s.lastAct = time.Now()
+				s.mu.Unlock()
+				continue
+			}
 			if idle >= s.cfg.IdleBound {
-				// quiescent
-				var iw *G
-				for _, g := range s.gs {
-					if g.state == gIdleWait {
-						iw = g
-						break
-					}
-				}
-				if iw != nil {
-					iw.state = gParked
-					s.lastAct = time.Now()
-					s.mu.Unlock()
-					continue
-				}
 				if !mainDone {
 					s.stats.Stalled = true
 					s.stats.StallInfo = s.describeWaiters()
@@ -717,8 +718,12 @@ func (s *Sim) Run(main func()) {
 				return
 			}
 			s.stats.ForcedAdvances++
+			step := s.cfg.IdleBound - idle
+			if iw != nil && iw.idleFor-idle < step {
+				step = iw.idleFor - idle
+			}
 			s.mu.Unlock()
-			s.advance(s.cfg.IdleBound - idle)
+			s.advance(step)
 			continue
 		}
 		s.lastAct = time.Now()
